@@ -56,13 +56,18 @@ class PathDeleteError(PathAssignError):
                 % (self.dest_name, self.path, self.exc))
 
 
-def _scope_path(path):
+def _scope_path(path, target, scope):
     """the steps of an S-rooted path, from T: to be applied to the scope
-    mapping, where S.name is spelled ['name']"""
+    mapping, where S.name is spelled ['name'] (and where T / Spec arguments
+    of the steps would not find the target: they are evaluated here)"""
     t = T
     for i, (op, arg) in enumerate(path.items()):
         if i == 0 and op in '.P':
             op = '['
+        if op in '[.P':
+            val = arg_val(target, arg, scope)
+            if val is not arg:
+                arg = Val(val)
         t = _t_child(t, op, arg)
     return Path(t)
 
@@ -178,7 +183,7 @@ class Assign:
         orig_path = self._orig_path
         if self.path.startswith(S):
             dest_target = scope[UP]
-            orig_path = _scope_path(orig_path)
+            orig_path = _scope_path(orig_path, target, scope)
             dest_path = orig_path[:-1]
             if not len(dest_path):
                 op = orig_path.items()[0][0]
@@ -363,7 +368,7 @@ class Delete:
         arg = arg_val(target, arg, scope)
         if self.path.startswith(S):
             dest_target = scope[UP]
-            dest_path = _scope_path(self._orig_path)
+            dest_path = _scope_path(self._orig_path, target, scope)
             if len(dest_path) == 1:
                 op = dest_path.items()[0][0]
             dest_path = dest_path[:-1]
